@@ -29,6 +29,7 @@ var tmpls = []vlib.Tmpl{
 	vlib.T("plain/sub/x"), vlib.T("plain/l1/descr"), vlib.T("plain/l1/descr-long"), vlib.T("plain/l1/mtu"), vlib.T("plain/l1/tags"), vlib.T("plain/l1/cfg/mode"),
 	vlib.T("plain/l1/sub/v"), vlib.T("plain/l1/oper"), vlib.T("plain/l2a/v"), vlib.T("plain/ifc/v"), vlib.T("plain/ifc-ext/v"), vlib.T("state/counter"), vlib.T("state/oper"),
 	vlib.T("plain/l1/descr"), vlib.T("plain/l1/mtu"),
+	vlib.T("state/oper-reason"), vlib.T("state/nbr/v"), vlib.T("state/nbr/v"),
 }
 var uni = &vlib.Universe{Name: "sync", Tmpls: tmpls}
 var palette = []string{"eth1", "eth10", "eth1/1"}
@@ -69,6 +70,13 @@ func genMsgs(t *rapid.T) []Msg {
 		case k == 1 && inCycle:
 			s = append(s, Msg{Kind: "end"})
 			inCycle = false
+		case k == 2:
+			// one notification carrying the same leaf-list under several list entries, elements sent as keys
+			m := Msg{Kind: "notif"}
+			for _, ki := range rapid.Permutation([]int{0, 1, 2}).Draw(t, "ll-entries")[:rapid.IntRange(2, 3).Draw(t, "ll-n")] {
+				m.Updates = append(m.Updates, UpdSel{Leaf: vlib.LeafSel{T: 11, K: []int{ki}, V: rapid.IntRange(0, 2).Draw(t, "ll-v")}, Form: "llkey"})
+			}
+			s = append(s, m)
 		default:
 			m := Msg{Kind: "notif"}
 			nu := rapid.IntRange(0, 3).Draw(t, "nu")
@@ -227,9 +235,13 @@ func (m *syncModel) apply(dn denot) {
 		st[k] = dn.upd[k]
 		m.touched[pre+k] = true
 		for _, kl := range p.ImpliedKeyLeaves() {
-			// key leaves are config leaves
-			m.cfg[kl.Path.Canon()] = kl.Value
-			m.touched["c:"+kl.Path.Canon()] = true
+			// key leaves live where their list lives (a state list keeps its keys in STATE when validation is on)
+			kst, kpre := m.storeOf(kl.Path), "c:"
+			if m.validate && kl.Path.Node() != nil && kl.Path.Node().State {
+				kpre = "s:"
+			}
+			kst[kl.Path.Canon()] = kl.Value
+			m.touched[kpre+kl.Path.Canon()] = true
 		}
 	}
 }
@@ -400,18 +412,26 @@ func Exec(c *Case) (nontrivial bool, labels []string, fail *vlib.Failure) {
 	for i, su := range script {
 		isNotif := su.Update != nil
 		if !isNotif {
-			// cycle markers wait for all in-flight writers: drain them first (in drawn order)
-			for len(pk) > 0 {
-				if f := releaseOne(); f != nil {
-					return nontrivial, keys(lab), f
+			// cycle markers must wait for all in-flight writers. Half of the time the harness lets the writers
+			// finish first; otherwise the marker is dispatched while writers are parked and the datastore itself
+			// has to hold the marker back (the writers are released one by one while it waits)
+			if len(pk) > 0 && draw(2) == 0 {
+				lab["marker-dispatched-with-writers-in-flight"] = true
+				nontrivial = true
+			} else {
+				for len(pk) > 0 {
+					if f := releaseOne(); f != nil {
+						return nontrivial, keys(lab), f
+					}
 				}
-			}
-			for getDone() < dispatched {
-				time.Sleep(100 * time.Microsecond)
+				for getDone() < dispatched {
+					time.Sleep(100 * time.Microsecond)
+				}
 			}
 			created, applied := deco.PruneCounts()
 			dev.SyncFeed <- su
 			deadline := time.Now().Add(20 * time.Second)
+			lastRelease := time.Now()
 			for {
 				c2, a2 := deco.PruneCounts()
 				if (su.Start && c2 > created) || (su.End && (a2 > applied || created == 0)) {
@@ -419,6 +439,12 @@ func Exec(c *Case) (nontrivial bool, labels []string, fail *vlib.Failure) {
 				}
 				if time.Now().After(deadline) {
 					return nontrivial, keys(lab), stalled("cycle marker not processed")
+				}
+				if len(pk) > 0 && time.Since(lastRelease) > 15*time.Millisecond {
+					if f := releaseOne(); f != nil {
+						return nontrivial, keys(lab), f
+					}
+					lastRelease = time.Now()
 				}
 				time.Sleep(100 * time.Microsecond)
 			}
